@@ -68,7 +68,9 @@ RULE = ('cases come from one PRNG. dual/correct1d: variances in eighths, n_rdm/n
         'eighths, sometimes arbitrary), with/without the two noise-ceiling rows, 1..6 models. '
         'result/boot/ranksum: Result objects with evaluation arrays of 2..5 dimensions (whole-row '
         'NaN = failed bootstrap samples, NaN folds inside the trailing axes), every kind of '
-        'variance input or none, noise ceilings (2,) or (2,N), dof 1..30, a random model '
+        'variance input or none, noise ceilings (2,) or (2,N), dof 2..30 (1 in 5 %), every public '
+        'route to the p-values (Result.test_all, the three accessors, inference_util.all_tests and '
+        'pair/zero/nc_tests), a random model '
         'permutation. fixed: eval_fixed with 1..4 models, 2..9 subjects, optionally reloaded '
         'from its dict. evaluator: every evaluation function on 3..9 RDMs of 4..6 conditions '
         '(both orders of the two counts), 1..3 fixed models, 6..10 bootstrap samples, seeded. A case is non-trivial unless it is an uncorrected single number or has '
@@ -240,7 +242,8 @@ def _gen_result(rng, tier):
     perm = list(range(m))
     rng.shuffle(perm)
     return {'op': 'result', 'cv_method': cv, 'evals': _lst(ev), 'var': var, 'var_kind': kind,
-            'nc_rows': nc, 'noise_ceiling': _lst(ncl), 'dof': rng.randint(1, 30),
+            'nc_rows': nc, 'noise_ceiling': _lst(ncl),
+            'dof': 1 if rng.random() < 0.05 else rng.randint(2, 30),
             'n_rdm': _opt_n(rng), 'n_pattern': _opt_n(rng), 'perm': perm}
 
 
@@ -281,7 +284,7 @@ def _gen_ranksum(rng, tier):
 
 def _gen_fixed(rng, tier):
     m = rng.choice([1, 2, 2, 3, 4])
-    n = rng.randint(2, 9)
+    n = 2 if rng.random() < 0.08 else rng.randint(3, 9)
     x = [[rng.randint(-16, 48) / 64 for _ in range(n)] for _ in range(m)]
     if rng.random() < 0.08:
         x[0] = [x[0][0]] * n        # a model with identical evaluations in all subjects
@@ -373,6 +376,37 @@ def _mk_result(case, perm=None):
                           n_rdm=case.get('n_rdm'), n_pattern=case.get('n_pattern'))
 
 
+ROUTES = ('accessors', 'test_all', 'util.all_tests', 'util.single')
+FAMILIES = ('p_pair', 'p_zero', 'p_nc')
+
+
+def _routes(r, test_type):
+    """the three p-value families through every public route: Result.test_pairwise/test_zero/
+    test_noise, Result.test_all, inference_util.all_tests, inference_util.pair_tests/zero_tests/
+    nc_tests (called the way the plotting code calls them, with the Result's own fields)"""
+    def split(x):
+        return list(x) if isinstance(x, list) and len(x) == 3 else [x, x, x]
+
+    def fields():
+        return (np.array(r.evaluations, dtype=float), np.array(r.noise_ceiling, dtype=float))
+
+    def util_all():
+        E, nc = fields()
+        return list(iu.all_tests(E, nc, test_type, model_var=r.model_var, diff_var=r.diff_var,
+                                 noise_ceil_var=r.noise_ceil_var, dof=r.dof))
+    out = {'accessors': [_canon(_catch(lambda: r.test_pairwise(test_type))),
+                         _canon(_catch(lambda: r.test_zero(test_type))),
+                         _canon(_catch(lambda: r.test_noise(test_type)))],
+           'test_all': split(_canon(_catch(lambda: list(r.test_all(test_type))))),
+           'util.all_tests': split(_canon(_catch(util_all))),
+           'util.single': [
+               _canon(_catch(lambda: iu.pair_tests(fields()[0], test_type, r.diff_var, r.dof))),
+               _canon(_catch(lambda: iu.zero_tests(fields()[0], test_type, r.model_var, r.dof))),
+               _canon(_catch(lambda: iu.nc_tests(fields()[0], fields()[1], test_type,
+                                                 r.noise_ceil_var, r.dof)))]}
+    return out
+
+
 def _result_obs(case, test_type, perm=None):
     """everything C06 speaks about, read off one Result object"""
     def build():
@@ -392,6 +426,7 @@ def _result_obs(case, test_type, perm=None):
         out['p_nc'] = _canon(_catch(lambda: r.test_noise(test_type)))
         # test_all must report the same three things
         out['p_all'] = _canon(_catch(lambda: list(r.test_all(test_type))))
+        out['routes'] = _routes(r, test_type)
         return out
     return _catch(build)
 
@@ -433,7 +468,8 @@ def _fixed_obs(case):
                 'nc_var': _canon(r.noise_ceil_var),
                 'p_pair': _canon(_catch(lambda: r.test_pairwise('t-test'))),
                 'p_zero': _canon(_catch(lambda: r.test_zero('t-test'))),
-                'p_nc': _canon(_catch(lambda: r.test_noise('t-test')))}
+                'p_nc': _canon(_catch(lambda: r.test_noise('t-test'))),
+                'routes': _routes(r, 't-test')}
     return _catch(build)
 
 
@@ -695,6 +731,31 @@ def _cmp_obs(op, impl, model, where):
         d = first_diff(a, b, *tol, path=f'{where}.{k}')
         if d:
             return d
+    return _cmp_routes(op, impl, model, where, skip_one_sided=(op == 'boot' and model.get('p_zero') is None))
+
+
+def _route_plan(pair_only):
+    """(route, families) to look at.  Bootstrap tests on > 2-D evaluations define only the pair
+    test per model (zero / ceiling tests return one value per fold and the combined wrappers cannot
+    broadcast a per-sample ceiling): there only the pair-test routes are compared."""
+    if pair_only:
+        return [('accessors', ('p_pair',)), ('util.single', ('p_pair',))]
+    return [(r, FAMILIES) for r in ROUTES]
+
+
+def _cmp_routes(op, impl, model, where, skip_one_sided=False):
+    """every public route must give the model's p-values"""
+    for route, fams in _route_plan(skip_one_sided):
+        got = impl['routes'][route]
+        for fam, a in zip(FAMILIES, got):
+            b = model.get(fam)
+            if b is None or fam not in fams:
+                continue
+            if _is_exc(a) and _is_exc(b):
+                continue
+            d = first_diff(a, b, PRTOL, PATOL, f'{where}.{route}.{fam}')
+            if d:
+                return d
     return None
 
 
@@ -746,7 +807,7 @@ def compare(case, impl, model):
             d = first_diff(impl[k], model[k], *tol, path=k)
             if d:
                 return d
-        return None
+        return _cmp_routes(op, impl, model, 'fixed')
     raise ValueError(op)
 
 
@@ -931,6 +992,33 @@ def _oracle_pvals(obs, what, m):
     return None
 
 
+def _route_obs(obs, route):
+    """the observation with the three p-value families taken from one route"""
+    return dict(obs, **dict(zip(FAMILIES, obs['routes'][route])))
+
+
+def _oracle_routes_agree(obs, what, pair_only=False):
+    """Result.test_all, the three single accessors and the inference_util wrappers are routes to
+    the same p-values"""
+    ref = obs['routes']['accessors']
+    for route, fams in _route_plan(pair_only)[1:]:
+        for k, fam in enumerate(FAMILIES):
+            if fam not in fams:
+                continue
+            a, b = ref[k], obs['routes'][route][k]
+            if _is_exc(a) and _is_exc(b):
+                continue
+            if _is_exc(a) != _is_exc(b):
+                return _bad(f'{what}: {fam} raises through one route only ({route} vs the accessor)',
+                            b, a, violated='routes', key=fam, route=route)
+            d = first_diff(b, a, 1e-9, 1e-12, fam)
+            if d:
+                return _bad(f'{what}: {fam} through {route} differs from Result.test_'
+                            + {'p_pair': 'pairwise', 'p_zero': 'zero', 'p_nc': 'noise'}[fam],
+                            b, a, violated='routes', key=fam, route=route, diff=d)
+    return None
+
+
 def _oracle_result(case):
     op = case['op']
     tt = {'result': 't-test', 'boot': 'bootstrap', 'ranksum': 'ranksum'}[op]
@@ -947,7 +1035,15 @@ def _oracle_result(case):
             continue
         if op == 'boot' and len(_shape_of(ev)) > 2:
             o = dict(o, p_zero=None, p_nc=None)     # not defined per model for >2-D arrays
-        r = _oracle_pvals(o, f'{tt} ({what})', m)
+        pair_only = op == 'boot' and len(_shape_of(ev)) > 2
+        for route, fams in _route_plan(pair_only):
+            o_r = _route_obs(o, route)
+            if pair_only:
+                o_r = dict(o_r, p_zero=None, p_nc=None)
+            r = _oracle_pvals(o_r, f'{tt} ({what}, {route})', m)
+            if r:
+                return r
+        r = _oracle_routes_agree(o, f'{tt} ({what})', pair_only)
         if r:
             return r
     keys = ['means', 'sem', 'model_var', 'diff_var', 'p_pair', 'p_zero', 'p_nc']
@@ -1008,11 +1104,14 @@ def _oracle_result(case):
             for k, (i, j) in enumerate(itertools.combinations(range(m), 2)):
                 e_pair[i, j] = e_pair[j, i] = 2 * (1 - sst.t.cdf(
                     abs(eff[i] - eff[j]) / math.sqrt(max(dv[k], EPS)), dof))
-        for k, e in (('p_zero', e_zero), ('p_nc', e_nc), ('p_pair', e_pair)):
-            d = first_diff(o_id[k], e.tolist(), PRTOL, 1e-10, k)
-            if d:
-                return _bad(f'{k} is not the t-test of the effect with its own variance', o_id[k],
-                            e.tolist(), violated='t_formula', key=k, diff=d)
+        for route in ROUTES:
+            o_r = _route_obs(o_id, route)
+            for k, e in (('p_zero', e_zero), ('p_nc', e_nc), ('p_pair', e_pair)):
+                d = first_diff(o_r[k], e.tolist(), PRTOL, 1e-10, k)
+                if d:
+                    return _bad(f'{k} ({route}) is not the t-test of the effect with its own variance '
+                                f'and the dof of the result ({dof})', o_r[k], e.tolist(),
+                                violated='t_formula', key=k, route=route, diff=d)
     # a larger effect at equal variance never yields a larger p-value
     res = _mk_result(case)
     E = res.evaluations
@@ -1117,29 +1216,38 @@ def _oracle_fixed(case):
         if d:
             return _bad('SEM of the fixed evaluation is not the classical s/sqrt(n)', o['sem'], sem.tolist(),
                         violated='fixed_sem', reload=bool(case.get('reload')))
-        for i in range(m):
-            if not ok[i]:
-                continue
-            p0 = sst.ttest_1samp(x[i], 0, alternative='greater').pvalue
-            if not close(o['p_zero'][i], p0, 1e-7, 1e-12):
-                return _bad('p against zero is not the one-sided one-sample t-test', o['p_zero'][i], float(p0),
-                            violated='fixed_p', reload=bool(case.get('reload')))
-            pc = sst.ttest_1samp(x[i], c).pvalue
-            if not close(o['p_nc'][i], pc, 1e-7, 1e-12):
-                return _bad('p against the noise ceiling is not the two-sided one-sample t-test',
-                            o['p_nc'][i], float(pc), violated='fixed_p', reload=bool(case.get('reload')))
-            for j in range(i + 1, m):
-                if np.var(x[i] - x[j]) < 1e-12:
+        for route in ROUTES:
+            o_r = _route_obs(o, route)
+            feat = dict(violated='fixed_p', route=route, reload=bool(case.get('reload')))
+            for fam in FAMILIES:
+                if _is_exc(o_r[fam]):
+                    return _bad(f'{fam} of the fixed evaluation cannot be computed through {route}',
+                                o_r[fam], violated='exception', key=fam, route=route)
+            for i in range(m):
+                if not ok[i]:
                     continue
-                pr = sst.ttest_rel(x[i], x[j]).pvalue
-                for a, b in ((i, j), (j, i)):
-                    if not close(o['p_pair'][a][b], pr, 1e-7, 1e-12):
-                        return _bad('pairwise p is not the paired t-test', o['p_pair'][a][b], float(pr),
-                                    violated='fixed_p', reload=bool(case.get('reload')))
-    for i in range(m):
-        if not close(o['p_pair'][i][i], 1.0):
-            return _bad('pairwise p-values without unit diagonal', o['p_pair'], violated='diagonal')
-    return None
+                p0 = sst.ttest_1samp(x[i], 0, alternative='greater').pvalue
+                if not close(o_r['p_zero'][i], p0, 1e-7, 1e-12):
+                    return _bad(f'p against zero ({route}) is not the one-sided one-sample t-test',
+                                o_r['p_zero'][i], float(p0), **feat)
+                pc = sst.ttest_1samp(x[i], c).pvalue
+                if not close(o_r['p_nc'][i], pc, 1e-7, 1e-12):
+                    return _bad(f'p against the noise ceiling ({route}) is not the two-sided one-sample '
+                                f't-test with n - 1 = {n - 1} degrees of freedom',
+                                o_r['p_nc'][i], float(pc), **feat)
+                for j in range(i + 1, m):
+                    if np.var(x[i] - x[j]) < 1e-12:
+                        continue
+                    pr = sst.ttest_rel(x[i], x[j]).pvalue
+                    for a_, b_ in ((i, j), (j, i)):
+                        if not close(o_r['p_pair'][a_][b_], pr, 1e-7, 1e-12):
+                            return _bad(f'pairwise p ({route}) is not the paired t-test',
+                                        o_r['p_pair'][a_][b_], float(pr), **feat)
+            for i in range(m):
+                if not close(o_r['p_pair'][i][i], 1.0):
+                    return _bad(f'pairwise p-values ({route}) without unit diagonal', o_r['p_pair'],
+                                violated='diagonal', route=route)
+    return _oracle_routes_agree(o, 'fixed evaluation')
 
 
 # the count(s) each evaluation function resamples over, hence corrects for (docstring of
